@@ -144,6 +144,8 @@ def prepare(pid: str, tier: str, log: list) -> dict:
     if tier == "thorough":
         # clean rebuild of the property's own modules
         for m in mods:
+            if pid not in m.split(".")[-1]:
+                continue                      # shared modules (Basic, other properties' lemmas) are left alone
             for ext in (".olean", ".ilean", ".trace", ".hash", ".olean.hash", ".ilean.hash"):
                 p = os.path.join(LEAN, ".lake", "build", "lib", "lean", *m.split(".")) + ext
                 if os.path.exists(p):
